@@ -103,6 +103,7 @@ type Ctx struct {
 	Funs map[string]*FunDecl
 	// axioms: included when any of the trigger function names occurs.
 	Axioms []*Axiom
+	selDepth int
 }
 
 type FunDecl struct {
@@ -517,6 +518,14 @@ func (c *Ctx) Select(a, i *Term) *Term {
 	}
 	if a.Op == "constarr" {
 		return a.Args[0]
+	}
+	if a.Op == "ite" && c.selDepth < 6 {
+		// distribute the read over a merged heap: exposes select-over-store
+		// simplifications and the row terms quantified facts are attached to
+		c.selDepth++
+		x, y := c.Select(a.Args[1], i), c.Select(a.Args[2], i)
+		c.selDepth--
+		return c.Ite(a.Args[0], x, y)
 	}
 	return c.mk(&Term{Op: "select", Args: []*Term{a, i}, Sort: a.Sort.Elem})
 }
@@ -1072,8 +1081,12 @@ func (c *Ctx) QueryOpt(asserts []*Term, getModelFor []*Term, noQuant bool) strin
 					continue
 				}
 				arr := pat.Args[0]
+				n := 0
 				for _, t := range snapshot {
-					if t.Op == "select" && t.Args[0] == arr && !t.Args[1].open {
+					// every index at which an array of this sort is read (the row may be
+					// reached through stores/ites that only the array theory resolves)
+					if t.Op == "select" && (t.Args[0] == arr || t.Args[0].Sort == arr.Sort) && !t.Args[1].open && n < 48 {
+						n++
 						k := [2]*Term{f, t.Args[1]}
 						if done[k] {
 							continue
